@@ -53,7 +53,8 @@ def render(name, atoms, numbers, edges, sections, rng, style):
             out.append(str(rng.choice(["; b0 [nm]  kb [kJ]", ";[ exclusions ]", "; see ref. [12]", " ; [ bonds ] kept for reference",
                                        ";[pairs]", "; old entry\x0c%d %d 1" % (numbers[0], numbers[-1]),
                                        "; removed\u2028%d %d 1 0.1 1000" % (numbers[-1], numbers[0]), "; vt\x0b9 CT 1 XXX Q9 9 0.0",
-                                       "; nel\x85%d %d 1" % (numbers[0], numbers[-1])])))
+                                       "; nel\x85%d %d 1" % (numbers[0], numbers[-1]),
+                                       ";    C1--C2   \\", "; kept from C:\\top\\", ";\\", "; 100% \"quoted\" 'text' #hash"])))
 
     out = []
     if style["header"]:
@@ -101,7 +102,7 @@ def render(name, atoms, numbers, edges, sections, rng, style):
             if style["lead"]:
                 line = "  " + line
             if style["noise"] and rng.random() < 0.2:
-                line += str(rng.choice([" ; bond", " ; b0 in [nm]", " ; [ bonds ]"]))
+                line += str(rng.choice([" ; bond", " ; b0 in [nm]", " ; [ bonds ]", " ; drawn as C-C\\", " ;\\"]))
             out.append(line)
         out.append("")
     text = "\n".join(out)
